@@ -17,7 +17,7 @@ PROPS["C02"] = dict(
     rule="case = parsed input (entry point x seed/truncation/mutation/generated) | API program (+ up to 3 edit rounds, re-serialized after each) | (class, option code 0..255, data length, payload y/n); "
          "distinct = distinct (layer chain, size, first 64 serialized bytes)",
     floors=dict(any={"distinct": 20000, "hook_layer_serializations": 500000, "packets_checked": 100000, "serializations_after_edit": 10000,
-                     "limit_shapes:*": 50, "element_shapes:ICMPv6.mld2": 1000, "element_shapes:ICMPv6.mld_query": 1000, "element_shapes:ICMP.extensions": 1000, "element_shapes:RTP": 1000, "element_shapes:IPv6.ext_headers": 1000, "option_shapes:TCP": 2000, "option_shapes:IP": 2000, "option_shapes:DHCP": 2000, "option_shapes:ICMPv6": 2000, "option_shapes:Dot11Beacon": 2000}),
+                     "limit_shapes:*": 50, "element_shapes:ICMPv6.mld2": 1000, "element_shapes:ICMPv6.mld_query": 1000, "element_shapes:PDUCacher": 1000, "element_shapes:ICMP.extensions": 1000, "element_shapes:RTP": 1000, "element_shapes:IPv6.ext_headers": 1000, "option_shapes:TCP": 2000, "option_shapes:IP": 2000, "option_shapes:DHCP": 2000, "option_shapes:ICMPv6": 2000, "option_shapes:Dot11Beacon": 2000}),
     assumptions=["x86-64 little-endian", "packets whose layer sizes add up to more than 65535+64 bytes are skipped"],
     evidence_extra=lambda run: {"pdu_types_seen_by_hook": sorted(k[12:] for k in run.stats if k.startswith("hooked_type:"))},
 )
